@@ -199,6 +199,16 @@ func (w *World) buildQuery(o *Obligation, g *Gen, uses []string) string {
 	if all["H_Iface_0"] && all["fresh0"] {
 		sb.WriteString("(assert (forall ((a!h Addr)) (! (=> (and (< (oid a!h) fresh0) (not (= (select H_Iface_0 a!h) inil)) (not (= (iref (select H_Iface_0 a!h)) anil))) (and (<= 0 (oid (iref (select H_Iface_0 a!h)))) (< (oid (iref (select H_Iface_0 a!h))) fresh0))) :pattern ((select H_Iface_0 a!h)))))\n")
 	}
+	// package-level error values of other packages (io.EOF, io.ErrUnexpectedEOF, ...) are pairwise distinct
+	var gvals []string
+	for _, name := range g.order {
+		if all[name] && strings.HasPrefix(name, "gval_") && g.decls[name] == "Iface" {
+			gvals = append(gvals, name)
+		}
+	}
+	if len(gvals) > 1 {
+		sb.WriteString("(assert (distinct " + strings.Join(gvals, " ") + "))\n")
+	}
 	sb.WriteString(specText)
 	sb.WriteString(autoText)
 	sb.WriteString(axText)
